@@ -1,6 +1,7 @@
 /- C10 driver:
-   `C10 run [[fam,sync],…] <ct:T|F> [event,…]` → `ok [snap,…]`   (state after start() and after each event)
-   `C10 spec [[fam,sync],…] [event,…] [obs,…]` → `ok <n>`         (0 = the observed run satisfies the property)
+   `C10 run [[fam,sync,name],…] <ct:T|F> [event,…]` → `ok [snap,…]`   (state after start() and after each event)
+   `C10 spec [[fam,sync,name],…] [event,…] [obs,…]` → `ok <n>`         (0 = the observed run satisfies the property)
+   (fam,name) = the socket address of the entry: entries may repeat an address; `addr` below = entry position
    event ::= [b,[[s,id],[f,id],…]] | [t] | [c]
    snap  ::= [[outcome,…],remaining,timerNone,timerLive,ctimerLive,[[addr,fut,closed,closes],…],[inSet…]]
    obs   ::= [[outcome,…],timerLive,ctimerLive,[[addr,fut,closed],…]]
@@ -15,9 +16,9 @@ def decAddrs (v : V) : Option (List Addr) := do
   let l ← v.list?
   let ps ← l.mapM (fun x => do
     match (← x.list?) with
-    | [f, s] => pure ((← f.nat?), (← s.bool?))
+    | [f, s, n] => pure ((← f.nat?), (← n.nat?), (← s.bool?))
     | _ => none)
-  pure (mkAddrs ps)
+  pure (mkNamed ps)
 
 def decCompl (v : V) : Option Compl := do
   match (← v.list?) with
